@@ -147,7 +147,9 @@ def start_run(binary, test, checks, seed, shard, workdir, extra_env, timeout_s, 
     stats = os.path.join(workdir, "stats.%d.json" % shard)
     rundir = os.path.join(workdir, "cwd.%d" % shard)
     os.makedirs(rundir, exist_ok=True)
+    current = os.path.join(workdir, "current.%d.json" % shard)
     env = goenv({
+        "VERIF_CURRENT": current,
         "VERIF_STATS": stats,
         "VERIF_REPLAYS": REPLAYS,
         "VERIF_KNOWN": KNOWN,
@@ -158,7 +160,7 @@ def start_run(binary, test, checks, seed, shard, workdir, extra_env, timeout_s, 
            "-rapid.nofailfile", "-test.count", "1"] + list(extra_args)
     logf = open(os.path.join(workdir, "out.%d.log" % shard), "w")
     p = subprocess.Popen(cmd, cwd=rundir, env=env, stdout=logf, stderr=subprocess.STDOUT)
-    return {"proc": p, "stats": stats, "log": logf.name, "logf": logf, "checks": checks, "shard": shard, "cmd": cmd}
+    return {"proc": p, "stats": stats, "log": logf.name, "logf": logf, "checks": checks, "shard": shard, "cmd": cmd, "current": current}
 
 
 def finish_run(r, timeout_s):
@@ -340,7 +342,18 @@ def check(prop, tier):
                     with open(racefile, "w") as f:
                         f.write(out[-20000:])
                     violations.append({"sig": prop + "/data-race", "msg": "race detector report", "replay": racefile})
-                if rc != 0 and not (stt and stt.get("violations")) and not (st.get("race") and "WARNING: DATA RACE" in out):
+                crashed = rc != 0 and not (stt and stt.get("violations")) and "panic: test timed out" not in out and (
+                    "fatal error:" in out or "\npanic:" in out or "unexpected signal" in out or "SIGSEGV" in out)
+                if crashed and os.path.exists(r["current"]):
+                    # The test process was killed while evaluating a case (e.g. a fatal runtime
+                    # error such as out of memory that recover() cannot catch).
+                    dstdir = os.path.join(REPLAYS, prop)
+                    os.makedirs(dstdir, exist_ok=True)
+                    dst = os.path.join(dstdir, "crash-%d-%d.json" % (int(time.time()), r["shard"]))
+                    shutil.copy(r["current"], dst)
+                    first = [l for l in out.splitlines() if l.startswith(("fatal error:", "panic:"))][:1]
+                    violations.append({"sig": prop + "/process-crash", "msg": "the test process died while evaluating the case: %s" % (first[0] if first else "abnormal exit %d" % rc), "replay": dst})
+                elif rc != 0 and not (stt and stt.get("violations")) and not (st.get("race") and "WARNING: DATA RACE" in out):
                     if "panic: test timed out" in out or rc == -9:
                         inconclusive.append("%s shard %d: time budget hit" % (st["test"], r["shard"]))
                     else:
